@@ -227,6 +227,9 @@ def trial(case):  # noqa: C901, PLR0912, PLR0915
 
 
 def cases(tier, seed):
+    from checks.insitu import insitu_cases
+
+    yield from insitu_cases(tier, seed)
     n = 500 if tier == "quick" else 6000
     rng = random.Random(seed)
     for i in range(12 if tier == "quick" else 60):
@@ -263,6 +266,10 @@ def cases(tier, seed):
 
 
 def run_case(case):
+    if case.get("kind") == "insitu":
+        from checks.insitu import run_insitu
+
+        return run_insitu(case, PROP)
     from checks.c19 import Yield
 
     if case["perturb"] == "yield":
@@ -342,4 +349,4 @@ if __name__ == "__main__":
     sys.exit(harness.main_for("checks.c05", PROP, "exploration", RULE,
                               ["hand-over hook depends on the _checkpoint_queue attribute being a queue.Queue (falls back to per-producer order)",
                                "real clock; quiescence rule: no API call for 2s+window with the client idle"],
-                              {"api_calls": 1000, "updates_delivered": 2000, "targeted_lost_wakeup_order_achieved": 6}))
+                              {"api_calls": 1000, "updates_delivered": 2000, "targeted_lost_wakeup_order_achieved": 6, "insitu_contract_evaluations_collect_batch": 100}))
